@@ -564,9 +564,32 @@ def build_unit(repo, unit, verif_dir):
             g.functions.append(ex)
         if header:
             parts.append(("}\n\n", [{"kind": "wrapper"}, None]))
+    # module-level `const NAME: T = EXPR;` items of the source files that the extracted text mentions and the
+    # prelude does not define are copied verbatim (a change may introduce a new constant next to the function)
+    prelude_text = "".join(t for t, _ in parts[:len(unit.prelude)])
+    body_text = "".join(ex.text for ex in g.functions)
+    added = []
+    for path, (src, m) in src_cache.items():
+        for cm in re.finditer(r"^(?:pub(?:\([a-z]+\))? )?const ([A-Z][A-Z0-9_]*): ([^=;]+?) = ([^;]+);", m, re.M):
+            name = cm.group(1)
+            if name in added or not re.search(r"\b%s\b" % name, body_text):
+                continue
+            if re.search(r"\b(const|static|fn)\s+%s\b" % name, prelude_text):
+                continue
+            added.append(name)
+            txt = "pub const %s: %s = %s; // copied verbatim from %s\n" % (name, src[cm.start(2):cm.end(2)].strip(), src[cm.start(3):cm.end(3)].strip(), os.path.relpath(path, repo))
+            parts.append((txt, [{"kind": "repo", "file": os.path.relpath(path, repo), "line": src.count("\n", 0, cm.start()) + 1}]))
+    g.copied_consts = added
     if unit.post:
         pl = unit.post if unit.post.endswith("\n") else unit.post + "\n"
-        parts.append((pl, [{"kind": "prelude", "file": unit.name + ":post", "line": i + 1} for i in range(pl.count("\n"))]))
+        porg = []
+        for i, ln in enumerate(pl.split("\n")[:-1]):
+            mm = re.search(r"//@@(clause|hint):(\S+)\s*$", ln)
+            if mm:
+                porg.append({"kind": mm.group(1), "ref": mm.group(2), "file": unit.name + ":post", "line": i + 1, "prelude": True})
+            else:
+                porg.append({"kind": "prelude", "file": unit.name + ":post", "line": i + 1})
+        parts.append((pl, porg))
     parts.append(("} // verus!\nfn main() {}\n", [{"kind": "wrapper"}, {"kind": "wrapper"}]))
     text = ""
     origins = []
